@@ -335,3 +335,131 @@ def _negated_in(cond, c):
 
 def _is_whole(cond, c):
     return A.strip(cond) is c
+
+
+# ------------------------------------------------------------------------------ ENC-SIB: the three encoders themselves
+def _is_field(n, name):
+    n = A.strip(n)
+    return isinstance(n, dict) and n.get('k') == 'mem' and n.get('field') and n.get('name') == name and n.get('clsq') == SVB and A.root(n.get('base'))[0] == 'this'
+
+
+def enc_sib(progs):
+    """The encoders are the definition of the encoding, so ENC-W exempts them; what is checked here is the discipline the three of
+    them share: large branch writes only `_size`; small branch moves the element count in `_capa`; `_size` is written only to set
+    the full marker (kMaxSize, when the new count reaches `_size`) or to restore N (`_size = _capa`, only under `_size == kMaxSize`
+    and before `_capa` changes, because only then does `_capa` hold N)."""
+    rr = RuleResult('ENC-SIB', 'setSize / incrSize / decrSize agree on the inline encoding: the element count lives in `_capa`, `_size` is only set '
+                               'to the full marker when the count reaches it, or restored from `_capa` under `_size == kMaxSize` before `_capa` changes; '
+                               'the large branch writes only `_size`')
+    for prog in progs:
+        for f in prog.amc_functions():
+            if f['name'] not in ENCODERS or f.get('body') is None:
+                continue
+            body = f['body']
+            P = A.Parents(body)
+            order = A.eval_order(body)
+            probs = []
+            stores = []
+            for st, lhs in A.stores(body):
+                w = '_capa' if _is_field(lhs, '_capa') else ('_size' if _is_field(lhs, '_size') else None)
+                if w:
+                    stores.append((st, w))
+
+            def branch(n):
+                """'small' / 'large' / None according to the isSmall() guard of n."""
+                for cond, truth in P.guards(n):
+                    c = A.strip(cond)
+                    if isinstance(c, dict) and c.get('k') == 'call' and A.callee(c) == SVB + '::isSmall':
+                        return 'small' if truth else 'large'
+                return None
+            if not any(branch(st) for st, w in stores):
+                probs.append(('shape', 'the stores are not under an isSmall() test', f))
+            for st, w in stores:
+                br = branch(st)
+                if br == 'large' and w != '_size':
+                    probs.append(('large-capa', 'the large-state branch writes `_capa`', st))
+                if br == 'small' and w == '_size':
+                    rhs = A.strip(st.get('rhs') or {}) if st.get('k') == 'bin' else {}
+                    guards = P.guards(st)
+                    if _is_max(rhs):
+                        # full marker: guarded by a comparison involving `_size` (the inline capacity N) and the new count
+                        ok = any(any(_is_field(x, '_size') for x in walk(c)) and A.strip(c).get('k') == 'bin' and A.strip(c).get('op') in ('==', '!=') and not any(_is_max(x) for x in walk(c)) and t == (A.strip(c).get('op') == '==')
+                                 for c, t in guards)
+                        if not ok:
+                            probs.append(('marker-guard', 'the full marker is set without testing that the new count equals `_size` (N)', st))
+                    elif _is_field(rhs, '_capa'):
+                        ok = any(any(_is_max(x) for x in walk(c)) and any(_is_field(x, '_size') for x in walk(c)) and t == (A.strip(c).get('op') == '==') for c, t in guards)
+                        if not ok:
+                            probs.append(('restore-guard', '`_size = _capa` (restoring N) is not guarded by `_size == kMaxSize`', st))
+                        later = [s2 for s2, w2 in stores if w2 == '_capa' and branch(s2) == 'small']
+                        if any(order[id(s2)] < order[id(st)] for s2 in later if _same_path(P, s2, st)):
+                            probs.append(('restore-order', '`_capa` is modified before N is restored from it', st))
+                    else:
+                        probs.append(('size-rhs', 'in the inline state `_size` receives something else than the full marker or `_capa`', st))
+            # every small path changes `_capa` exactly as the operation says
+            small_capa = [st for st, w in stores if w == '_capa' and branch(st) == 'small']
+            want = {'incrSize': '++', 'decrSize': '--', 'setSize': '='}[short(f['name'])]
+            for st in small_capa:
+                op = st.get('op')
+                if op != want:
+                    probs.append(('capa-op', '`_capa` is changed with `%s` in %s' % (op, short(f['name'])), st))
+                if want == '=' and not (A.strip(st.get('rhs') or {}).get('k') == 'ref' and A.strip(st['rhs']).get('dk') == 'param'):
+                    probs.append(('capa-rhs', 'setSize does not store its argument into `_capa`', st))
+            if not small_capa:
+                probs.append(('capa-missing', 'the inline branch never updates `_capa`', f))
+            large_size = [st for st, w in stores if w == '_size' and branch(st) == 'large']
+            for st in large_size:
+                if st.get('op') != want:
+                    probs.append(('size-op', '`_size` is changed with `%s` in the large branch of %s' % (st.get('op'), short(f['name'])), st))
+            if not large_size:
+                probs.append(('size-missing', 'the large branch never updates `_size`', f))
+            # the full marker must be handled in both directions where it can change
+            has_set = any(w == '_size' and st.get('k') == 'bin' and _is_max(A.strip(st.get('rhs') or {})) for st, w in stores)
+            has_restore = any(w == '_size' and st.get('k') == 'bin' and _is_field(A.strip(st.get('rhs') or {}), '_capa') for st, w in stores)
+            sn = short(f['name'])
+            if sn in ('incrSize', 'setSize') and not has_set:
+                probs.append(('no-set', 'the full marker is never set although the count can reach N', f))
+            if sn in ('decrSize', 'setSize') and not has_restore:
+                probs.append(('no-restore', 'N is never restored although the count can leave N', f))
+            rr.instance('%s' % f['key'], {'function': f['pname'][:140], 'stores': len(stores), 'problems': [p[0] for p in probs]})
+            for code, msg, node in probs:
+                rr.add(Finding('ENC-SIB', '%s|%s' % (f['key'], code), prog.site(f, node) if node is not f else f['loc'],
+                               'encoder %s: %s' % (short(f['name']), msg), where=f['pname'], unit=prog.uname))
+    return rr
+
+
+def _same_path(P, a, b):
+    """a and b can execute on one path (neither is in the opposite branch of a common if)."""
+    ga = {id(c): t for c, t in P.guards(a)}
+    for c, t in P.guards(b):
+        if id(c) in ga and ga[id(c)] != t:
+            return False
+    return True
+
+
+def shrink_inline(progs):
+    rr = RuleResult('SHRINK-INLINE', 'shrink_to_fit of a heap-backed SmallVector returns to the inline storage exactly when the elements fit (size <= N)')
+    from .shape import unwrap_cond
+    for prog in progs:
+        for f in prog.amc_functions():
+            if f['name'] != SVB + '::shrink_impl' or f.get('body') is None:
+                continue
+            P = A.Parents(f['body'])
+            calls = [c for c in A.calls(f['body']) if A.callee(c) == SVB + '::resetToSmall']
+            ok = False
+            for c in calls:
+                for cond, truth in P.guards(c):
+                    cn, neg = unwrap_cond(cond)
+                    t = truth != neg
+                    if isinstance(cn, dict) and cn.get('k') == 'bin':
+                        l, r, op = A.strip(cn['lhs']), A.strip(cn['rhs']), cn['op']
+                        ls, rs = _is_field(l, '_size'), _is_field(r, '_size')
+                        lp = l.get('k') == 'ref' and l.get('dk') == 'param'
+                        rp = r.get('k') == 'ref' and r.get('dk') == 'param'
+                        if (ls and rp and ((op == '<=' and t) or (op == '>' and not t))) or (lp and rs and ((op == '>=' and t) or (op == '<' and not t))):
+                            ok = True
+            rr.instance('%s' % f['key'], {'function': f['pname'][:140], 'resetToSmall_calls': len(calls), 'guard_is_size_le_N': ok})
+            if not ok:
+                rr.add(Finding('SHRINK-INLINE', '%s' % f['key'], f['loc'],
+                               'shrink_impl does not come back to the inline storage exactly when `_size <= inplaceCapa`', where=f['pname'], unit=prog.uname))
+    return rr
